@@ -24,6 +24,7 @@ static long          vf_hits;
 static vf_event_fn   vf_event;
 static int           vf_virtual_clock;
 static long          vf_clock_ms = 1000000;  /* virtual epoch: 1000 s */
+static size_t        vf_commit_min_len;  /* mprotect(RW) calls of at most this length are never refused nor counted as positions */
 static uint64_t      vf_rng_state = 0x5eed1234abcdull;  /* deterministic by default; 0 = kernel */
 
 static void lock(void)   { while (atomic_flag_test_and_set_explicit(&vf_lock, memory_order_acquire)) { } }
@@ -76,6 +77,7 @@ void vf_arm(int kind, long k, int persistent) { lock(); vf_arm_kind = kind; vf_a
 void vf_disarm(void) { lock(); vf_arm_kind = -1; unlock(); }
 long vf_faults_hit(void) { return vf_hits; }
 void vf_set_event_fn(vf_event_fn fn) { vf_event = fn; }
+void vf_set_commit_min_len(size_t len) { vf_commit_min_len = len; }
 
 size_t vf_region_count(void) { return vf_ntab; }
 size_t vf_regions(vf_region_t* out, size_t max) {
@@ -145,6 +147,7 @@ int vf_munmap(void* addr, size_t len) {
 
 int vf_mprotect(void* addr, size_t len, int prot) {
   int kind = (prot == PROT_NONE ? VF_PROTECT : VF_COMMIT);
+  if (kind == VF_COMMIT && len <= vf_commit_min_len) { return mprotect(addr, len, prot); }
   if (count_and_check(kind)) {
     if (vf_event) vf_event(kind, addr, len, prot, 1);
     errno = ENOMEM; return -1;
